@@ -15,7 +15,9 @@ RULE = ('every distinct TZif file under /usr/share/zoneinfo (incl. right/ with l
         'block boundary, index bytes, isdst/indicator bytes, version bytes incl. mismatched second header, unsorted '
         'times, footer edits); random bytes with and without a valid header; TZ strings from the POSIX grammar '
         '(+ RFC 8536 extension) with per-production mutations; lookups batched per zone: i64 extremes, +-2 s around '
-        'every transition instant and wall time, rule boundaries of sampled years, year-range ends')
+        'every transition instant and wall time, rule boundaries of sampled years, year-range ends; raw blocks with '
+        'utoff = -2^31 (and +-1) on named / empty-designation / unused types in either block of v1-v3 files, designation '
+        'tables without final NUL with an index into the unterminated tail')
 
 ZONEINFO = '/usr/share/zoneinfo'
 NAMECH = 'ABCDEFGHIJKLMNOPQRSTUVWXYZabcdefghijklmnopqrstuvwxyz0123456789+-'
